@@ -17,6 +17,7 @@ package sflow
 // ---- flow sample ---------------------------------------------------------------------------------
 
 //@ func (*FlowSample).unmarshal
+//@   names fs r _ err
 //@   requires strm(r)
 //@   ensures strm(r) && r.D == old(r.D) && r.Pos >= old(r.Pos)
 //@   ensures old(r.Pos) + 32 <= len(r.D) ==> err == nil && r.Pos == old(r.Pos) + 32 && fs.SequenceNo == be32(r.D, old(r.Pos)) && fs.SourceID == be8(r.D, old(r.Pos)+4)
@@ -30,6 +31,7 @@ package sflow
 //@ spec xdrPad(n mathint) mathint = (4 - n % 4) % 4
 
 //@ func (*SampledHeader).unmarshal
+//@   names sh r _ err tmp
 //@   requires strm(r)
 //@   ensures strm(r) && r.D == old(r.D) && r.Pos >= old(r.Pos)
 //@   ensures old(r.Pos) + 16 > len(r.D) ==> err != nil
@@ -42,6 +44,7 @@ package sflow
 //@   modifies sh, r.Pos
 
 //@ func (*ExtSwitchData).unmarshal
+//@   names es r _ err
 //@   requires strm(r)
 //@   ensures strm(r) && r.D == old(r.D) && r.Pos >= old(r.Pos)
 //@   ensures [words] old(r.Pos) + 16 <= len(r.D) ==> err == nil && r.Pos == old(r.Pos) + 16 && es.SrcVlan == be32(r.D, old(r.Pos)) && es.SrcPriority == be32(r.D, old(r.Pos)+4)
@@ -52,6 +55,7 @@ package sflow
 // extended router: address type (1 = IPv4, 2 = IPv6), address, source and destination mask lengths;
 // l is the declared record length (16 or 28)
 //@ func (*ExtRouterData).unmarshal
+//@   names er r l _ err buff
 //@   requires strm(r)
 //@   ensures strm(r) && r.D == old(r.D) && r.Pos >= old(r.Pos)
 //@   ensures [wf] (l == 16 || l == 28) && old(r.Pos) + l <= len(r.D) ==> err == nil && r.Pos == old(r.Pos) + l
@@ -59,12 +63,14 @@ package sflow
 //@   modifies er, r.Pos
 
 //@ func decodeSampledHeader
+//@   names r _ _ h err p d
 //@   requires strm(r)
 //@   ensures strm(r) && r.D == old(r.D) && r.Pos >= old(r.Pos)
 //@   ensures err == nil ==> result != nil
 //@   modifies r.Pos
 
 //@ func decodeExtSwitchData
+//@   names r _ _ es err
 //@   requires strm(r)
 //@   ensures strm(r) && r.D == old(r.D) && r.Pos >= old(r.Pos)
 //@   ensures old(r.Pos) + 16 <= len(r.D) ==> err == nil && result != nil && r.Pos == old(r.Pos) + 16 && result.SrcVlan == be32(r.D, old(r.Pos)) && result.SrcPriority == be32(r.D, old(r.Pos)+4)
@@ -73,6 +79,7 @@ package sflow
 //@   modifies r.Pos
 
 //@ func decodeExtRouterData
+//@   names r l _ _ er err
 //@   requires strm(r)
 //@   ensures strm(r) && r.D == old(r.D) && r.Pos >= old(r.Pos)
 //@   ensures (l == 16 || l == 28) && old(r.Pos) + l <= len(r.D) ==> err == nil && result != nil && r.Pos == old(r.Pos) + l
@@ -82,6 +89,7 @@ package sflow
 
 // every record costs at least its 8-octet header, so the work is bounded by the octets present
 //@ func decodeFlowSample
+//@   names r _ _ fs rTypeFormat rTypeLength err i d err d err d err
 //@   requires strm(r)
 //@   ensures strm(r) && r.D == old(r.D) && r.Pos >= old(r.Pos)
 //@   ensures err == nil ==> result != nil && r.Pos >= old(r.Pos) + 32
@@ -94,6 +102,7 @@ package sflow
 // ---- counter sample ------------------------------------------------------------------------------
 
 //@ func (*CounterSample).unmarshal
+//@   names cs r _ err buf
 //@   requires strm(r)
 //@   ensures strm(r) && r.D == old(r.D) && r.Pos >= old(r.Pos)
 //@   ensures old(r.Pos) + 12 <= len(r.D) ==> err == nil && r.Pos == old(r.Pos) + 12 && cs.SequenceNo == be32(r.D, old(r.Pos)) && cs.SourceIDType == be8(r.D, old(r.Pos)+4)
@@ -103,6 +112,7 @@ package sflow
 //@   modifies cs, r.Pos
 
 //@ func decodeFlowCounter
+//@   names r _ _ cs rTypeFormat rTypeLength err i d err d err d err d err d err d err
 //@   requires strm(r)
 //@   ensures strm(r) && r.D == old(r.D) && r.Pos >= old(r.Pos)
 //@   ensures err == nil ==> result != nil && r.Pos >= old(r.Pos) + 12
@@ -120,12 +130,14 @@ package sflow
 //@     c.OutUnicastPackets == be32(b, p+64) && c.OutMulticastPackets == be32(b, p+68) && c.OutBroadcastPackets == be32(b, p+72) &&
 //@     c.OutDiscards == be32(b, p+76) && c.OutErrors == be32(b, p+80) && c.PromiscuousMode == be32(b, p+84)
 //@ func (*GenericInterfaceCounters).unmarshal
+//@   names gic r _ err fields _ field
 //@   requires strm(r)
 //@   ensures strm(r) && r.D == old(r.D) && r.Pos >= old(r.Pos)
 //@   ensures old(r.Pos) + 88 <= len(r.D) ==> err == nil && r.Pos == old(r.Pos) + 88 && genAt(gic, r.D, old(r.Pos))
 //@   ensures old(r.Pos) + 88 > len(r.D) ==> err != nil
 //@   modifies gic, r.Pos
 //@ func decodeGenericIntCounters
+//@   names r _ _ gic err
 //@   requires strm(r)
 //@   ensures strm(r) && r.D == old(r.D) && r.Pos >= old(r.Pos)
 //@   ensures old(r.Pos) + 88 <= len(r.D) ==> err == nil && result != nil && r.Pos == old(r.Pos) + 88 && genAt(result, r.D, old(r.Pos))
@@ -139,12 +151,14 @@ package sflow
 //@     c.InternalMACTransmitErrors == be32(b, p+32) && c.CarrierSenseErrors == be32(b, p+36) && c.FrameTooLongs == be32(b, p+40) &&
 //@     c.InternalMACReceiveErrors == be32(b, p+44) && c.SymbolErrors == be32(b, p+48)
 //@ func (*EthernetInterfaceCounters).unmarshal
+//@   names eic r _ err fields _ field
 //@   requires strm(r)
 //@   ensures strm(r) && r.D == old(r.D) && r.Pos >= old(r.Pos)
 //@   ensures old(r.Pos) + 52 <= len(r.D) ==> err == nil && r.Pos == old(r.Pos) + 52 && ethAt(eic, r.D, old(r.Pos))
 //@   ensures old(r.Pos) + 52 > len(r.D) ==> err != nil
 //@   modifies eic, r.Pos
 //@ func decodeEthIntCounters
+//@   names r _ _ eic err
 //@   requires strm(r)
 //@   ensures strm(r) && r.D == old(r.D) && r.Pos >= old(r.Pos)
 //@   ensures old(r.Pos) + 52 <= len(r.D) ==> err == nil && result != nil && r.Pos == old(r.Pos) + 52 && ethAt(result, r.D, old(r.Pos))
@@ -159,12 +173,14 @@ package sflow
 //@     c.TransmitBeacons == be32(b, p+48) && c.Recoverys == be32(b, p+52) && c.LobeWires == be32(b, p+56) && c.Removes == be32(b, p+60) &&
 //@     c.Singles == be32(b, p+64) && c.FreqErrors == be32(b, p+68)
 //@ func (*TokenRingCounters).unmarshal
+//@   names tr r _ err fields _ field
 //@   requires strm(r)
 //@   ensures strm(r) && r.D == old(r.D) && r.Pos >= old(r.Pos)
 //@   ensures old(r.Pos) + 72 <= len(r.D) ==> err == nil && r.Pos == old(r.Pos) + 72 && trAt(tr, r.D, old(r.Pos))
 //@   ensures old(r.Pos) + 72 > len(r.D) ==> err != nil
 //@   modifies tr, r.Pos
 //@ func decodeTokenRingCounters
+//@   names r _ _ tr err
 //@   requires strm(r)
 //@   ensures strm(r) && r.D == old(r.D) && r.Pos >= old(r.Pos)
 //@   ensures old(r.Pos) + 72 <= len(r.D) ==> err == nil && result != nil && r.Pos == old(r.Pos) + 72 && trAt(result, r.D, old(r.Pos))
@@ -178,12 +194,14 @@ package sflow
 //@     c.OutHighPriorityFrames == be32(b, p+40) && c.OutHighPriorityOctets == be64(b, p+44) && c.TransitionIntoTrainings == be32(b, p+52) &&
 //@     c.HCInHighPriorityOctets == be64(b, p+56) && c.HCInNormPriorityOctets == be64(b, p+64) && c.HCOutHighPriorityOctets == be64(b, p+72)
 //@ func (*VGCounters).unmarshal
+//@   names vg r _ err fields _ field
 //@   requires strm(r)
 //@   ensures strm(r) && r.D == old(r.D) && r.Pos >= old(r.Pos)
 //@   ensures old(r.Pos) + 80 <= len(r.D) ==> err == nil && r.Pos == old(r.Pos) + 80 && vgAt(vg, r.D, old(r.Pos))
 //@   ensures old(r.Pos) + 80 > len(r.D) ==> err != nil
 //@   modifies vg, r.Pos
 //@ func decodeVGCounters
+//@   names r _ _ vg err
 //@   requires strm(r)
 //@   ensures strm(r) && r.D == old(r.D) && r.Pos >= old(r.Pos)
 //@   ensures old(r.Pos) + 80 <= len(r.D) ==> err == nil && result != nil && r.Pos == old(r.Pos) + 80 && vgAt(result, r.D, old(r.Pos))
@@ -194,12 +212,14 @@ package sflow
 //@ pred vlanAt(c VlanCounters, b []byte, p mathint) = c.ID == be32(b, p) && c.Octets == be64(b, p+4) && c.UnicastPackets == be32(b, p+12) &&
 //@     c.MulticastPackets == be32(b, p+16) && c.BroadcastPackets == be32(b, p+20) && c.Discards == be32(b, p+24)
 //@ func (*VlanCounters).unmarshal
+//@   names vc r _ err fields _ field
 //@   requires strm(r)
 //@   ensures strm(r) && r.D == old(r.D) && r.Pos >= old(r.Pos)
 //@   ensures old(r.Pos) + 28 <= len(r.D) ==> err == nil && r.Pos == old(r.Pos) + 28 && vlanAt(vc, r.D, old(r.Pos))
 //@   ensures old(r.Pos) + 28 > len(r.D) ==> err != nil
 //@   modifies vc, r.Pos
 //@ func decodeVlanCounters
+//@   names r _ _ vc err
 //@   requires strm(r)
 //@   ensures strm(r) && r.D == old(r.D) && r.Pos >= old(r.Pos)
 //@   ensures old(r.Pos) + 28 <= len(r.D) ==> err == nil && result != nil && r.Pos == old(r.Pos) + 28 && vlanAt(result, r.D, old(r.Pos))
@@ -210,12 +230,14 @@ package sflow
 //@ pred procAt(c ProcessorCounters, b []byte, p mathint) = c.CPU5s == be32(b, p) && c.CPU1m == be32(b, p+4) && c.CPU5m == be32(b, p+8) &&
 //@     c.TotalMemory == be64(b, p+12) && c.FreeMemory == be64(b, p+20)
 //@ func (*ProcessorCounters).unmarshal
+//@   names pc r _ err fields _ field
 //@   requires strm(r)
 //@   ensures strm(r) && r.D == old(r.D) && r.Pos >= old(r.Pos)
 //@   ensures old(r.Pos) + 28 <= len(r.D) ==> err == nil && r.Pos == old(r.Pos) + 28 && procAt(pc, r.D, old(r.Pos))
 //@   ensures old(r.Pos) + 28 > len(r.D) ==> err != nil
 //@   modifies pc, r.Pos
 //@ func decodedProcessorCounters
+//@   names r _ _ pc err
 //@   requires strm(r)
 //@   ensures strm(r) && r.D == old(r.D) && r.Pos >= old(r.Pos)
 //@   ensures old(r.Pos) + 28 <= len(r.D) ==> err == nil && result != nil && r.Pos == old(r.Pos) + 28 && procAt(result, r.D, old(r.Pos))
@@ -224,9 +246,11 @@ package sflow
 // ---- datagram ------------------------------------------------------------------------------------
 
 //@ func NewSFDecoder
+//@   names r f _
 //@   ensures result.reader == r && result.filter == f
 
 //@ func (*SFDecoder).sfHeaderDecode
+//@   names d _ _ datagram ipLen err buff
 //@   requires strm(d.reader)
 //@   ensures strm(d.reader) && d.reader.D == old(d.reader.D) && d.reader.Pos >= old(d.reader.Pos) && d.filter == old(d.filter)
 //@   ensures err == nil ==> result != nil && result.Version == 5 && result.Version == be32(d.reader.D, old(d.reader.Pos)) && result.IPVersion == be32(d.reader.D, old(d.reader.Pos)+4)
@@ -244,6 +268,7 @@ package sflow
 // data format word: enterprise (20 bits) and format (12 bits); a sample of an enterprise-specific or
 // unknown type is skipped by its declared length
 //@ func (*SFDecoder).getSampleInfo
+//@   names d _ _ _ sfType sfTypeFormat sfTypeEnterprise sfDataLength err
 //@   requires strm(d.reader)
 //@   ensures strm(d.reader) && d.reader.D == old(d.reader.D) && d.reader.Pos >= old(d.reader.Pos) && d.filter == old(d.filter)
 //@   ensures [info] old(d.reader.Pos) + 8 <= len(d.reader.D) ==> err == nil && d.reader.Pos == old(d.reader.Pos) + 8
@@ -253,11 +278,13 @@ package sflow
 //@   modifies d.reader.Pos
 
 //@ func (*SFDecoder).isFilterMatch
+//@   names d f _ _ v
 //@   ensures result <==> (exists k :: 0 <= k && k < len(d.filter) && d.filter[k] == f)
 //@   loop 1
 //@     invariant forall k :: 0 <= k && k < range_i ==> d.filter[k] != f
 
 //@ func (*SFDecoder).SFDecode
+//@   names d _ _ datagram err i sfTypeFormat sfDataLength err m d err d err
 //@   requires strm(d.reader) && d.reader.Pos == 0
 //@   ensures strm(d.reader) && d.reader.D == old(d.reader.D)
 //@   ensures err == nil ==> result != nil
